@@ -4,6 +4,7 @@ import NutilsVerif.Proofs.C09Take
 import NutilsVerif.Proofs.C09Dedup
 import NutilsVerif.Proofs.C09Tables
 import NutilsVerif.Proofs.C09Affine
+import NutilsVerif.Proofs.C09Valid
 /-!
 # C09 — integration is exact quadrature of point evaluation: property theorems
 
@@ -87,6 +88,10 @@ theorem take_elements_integral {α : Type} [CommSemiring α] (w : LeafPt → α)
     Valid (takeElements s ind) ∧
     integralCode w (takeElements s ind) f = (ind.map fun i => dot (wts w s i) ((pts s i).map f)).sum :=
   takeElements_spec w s hs ind hind f
+
+/-- the validity flag the driver reports (`validB`, compared with the exceptions / assertions of the real constructors)
+decides the hypothesis `Valid` of the theorems above -/
+theorem valid_decidable (s : SampleExpr) : validB s = true ↔ Valid s := validB_iff s
 
 -- non-vacuity: a nested expression (subset of a product of a sum, zipped with a custom-index sample) is valid
 example : Valid (.zip (.take (.mul (.add (.default 0 [2, 1]) (.default 0 [3])) (.default 1 [2])) [2, 0])
